@@ -1,1 +1,399 @@
-/- C15 — property theorems (stub: not built yet). -/
+/-
+C15 — A chart is a set of timed objects: results do not depend on row order.
+
+For each operation model f (imported from the property that owns it, tied to the source by that property's
+correspondence check and, on permuted charts, by `harness/props/c15.py`):
+
+    every list of the chart permuted (`List.Perm`)  →  f chart ≈ f chart'
+
+with ≈ as `Spec/Perm.lean` says.  Proved here:
+
+  dominant_bpm_perm        equality of the value                   hyp: tempo points of one time are equal
+  sv_normalize_perm        same multiset of (time, multiplier)     hyp: the same (none with an override)
+  scroll_speed_perm        equality of the whole result list       hyp: + coinciding SVs carry equal multipliers
+  full_ln_perm             equal hit and hold lists, for ANY two sorting functions
+                                                                   hyp: notes of one (time, column) are equal
+  rate_perm                same multiset of rows in every list     hyp: well-formed frames (`chartOk`)
+  hitsound_copy_perm_partial   same notes; per (time, name) the same number of named samples on notes + events;
+                           the clap/finish/whistle counts are bounded by the same source counts — for ANY
+                           sorting permutations on both sides (the full multiset of (time, sound) is NOT proved)
+  counterexamples          each tie hypothesis is necessary (`*_tie_counterexample`), the code before the repair
+                           of D18 (`dominant_bpm_order_counterexample`), the object-dtype bit test of N15a
+
+  write_qua_perm           the Quaver writer: both written documents denote (by the book) the same chart up to
+                           row order                               hyp: those of C06's `qua_write_denotes`
+
+  convert_one_perm         the 17 converter entry points, one pass of the body: sources with the same hits / holds /
+                           tempo points up to row order (stated over the rows projected on the carried columns, any
+                           labels) give charts with the same hits / holds / tempo points up to row order
+
+Not proved here (see manifest.d/C15.json): that a row permutation of a column-oriented frame induces `SrcKeyPerm`
+(the projection lemma), the SV list and the loop shapes of the converters, the osu / StepMania / BMS writers (their
+models are not yet composed with `Perm`).
+-/
+import Reamber.Lemmas.PermInv
+import Reamber.Lemmas.PermInvConvert
+import Reamber.Props.C13
+import Reamber.Props.C17
+import Reamber.Props.C18
+import Reamber.Props.C06
+
+namespace Reamber.PermInv
+
+open Reamber.Analysis
+
+/-! ## dominant bpm, SV normalisation -/
+
+/-- **dominant_bpm**: permuting the tempo rows does not change the dominant bpm (`L` = last stacked offset, a
+maximum and therefore itself independent of row order). -/
+theorem dominant_bpm_perm {bpms bpms' : List Tp} (L : Rat) (ht : TiesEqual (fun p : Tp => p.time) bpms)
+    (hp : bpms.Perm bpms') : dominantBpm bpms L = dominantBpm bpms' L := by
+  simp only [dominantBpm, dominantRows, sortTp_eq_of_perm ht hp]
+
+example : TiesEqual (fun p : Tp => p.time) [⟨1000, 200⟩, ⟨0, 100⟩, ⟨0, 100⟩] := by
+  rw [← tiesEqualB_iff]; decide +kernel
+
+theorem refBpm_perm {bpms bpms' : List Tp} (L : Rat) (ov : Option Rat) (ht : TiesEqual (fun p : Tp => p.time) bpms)
+    (hp : bpms.Perm bpms') : refBpm bpms L ov = refBpm bpms' L ov := by
+  simp only [refBpm, dominant_bpm_perm L ht hp]
+
+/-- **sv_normalize**: the same multiset of (time, multiplier) rows; both raise together -/
+theorem sv_normalize_perm {bpms bpms' : List Tp} (L : Rat) (ov : Option Rat)
+    (ht : TiesEqual (fun p : Tp => p.time) bpms) (hp : bpms.Perm bpms') :
+    OptSameRows (svNormalize bpms L ov) (svNormalize bpms' L ov) := by
+  simp only [svNormalize, refBpm_perm L ov ht hp]
+  cases refBpm bpms' L ov with
+  | none => trivial
+  | some ref => exact hp.map _
+
+/-- with a (non-zero) override no hypothesis on ties is needed -/
+theorem sv_normalize_perm_override {bpms bpms' : List Tp} (L b : Rat) (hb : b ≠ 0) (hp : bpms.Perm bpms') :
+    OptSameRows (svNormalize bpms L (some b)) (svNormalize bpms' L (some b)) := by
+  simp only [svNormalize, refBpm, hb, if_false, Option.map_some]
+  exact hp.map _
+
+/-- the code as it was before the repair of D18: the bpm column is taken in ROW order and paired by position
+with the intervals of the SORTED offsets -/
+def dominantBpmUnsortedPairing (bpms : List Tp) (last : Rat) : Option Rat :=
+  idxmax (groupSum ((bpms.map (·.bpm)).zip (diffs (sortRat (bpms.map (·.time) ++ [last])))))
+
+/-- D18, witness: the same two tempo points in two row orders — 100 bpm for 1000 ms then 200 bpm for 500 ms -/
+theorem dominant_bpm_order_counterexample :
+    dominantBpmUnsortedPairing [⟨0, 100⟩, ⟨1000, 200⟩] 1500 = some 100 ∧
+    dominantBpmUnsortedPairing [⟨1000, 200⟩, ⟨0, 100⟩] 1500 = some 200 ∧
+    dominantBpm [⟨0, 100⟩, ⟨1000, 200⟩] 1500 = some 100 ∧
+    dominantBpm [⟨1000, 200⟩, ⟨0, 100⟩] 1500 = some 100 := by decide +kernel
+
+/-- the tie hypothesis is necessary: two different tempo points at time 0, in two row orders -/
+theorem dominant_bpm_tie_counterexample :
+    ([⟨0, 100⟩, ⟨0, 200⟩] : List Tp).Perm [⟨0, 200⟩, ⟨0, 100⟩] ∧
+    dominantBpm [⟨0, 100⟩, ⟨0, 200⟩] 1000 ≠ dominantBpm [⟨0, 200⟩, ⟨0, 100⟩] 1000 := by
+  refine ⟨List.Perm.swap _ _ _, ?_⟩
+  decide +kernel
+
+/-! ## scroll speed -/
+
+theorem bpmFrame_perm {bpms bpms' : List Tp} (omin omax : Rat) (ht : TiesEqual (fun p : Tp => p.time) bpms)
+    (hp : bpms.Perm bpms') : bpmFrame bpms omin omax = bpmFrame bpms' omin omax := by
+  unfold bpmFrame bpmRows
+  congr 1
+  apply sortRow_append_eq_of_perm _ _ _ (hp.map _)
+  · intro r hr
+    obtain ⟨p, _, rfl⟩ := List.mem_map.mp hr
+    simp
+  · intro r hr
+    simp only [headTailBpm, List.zip_cons_cons, List.zip_nil_right, List.mem_cons, List.not_mem_nil, or_false] at hr
+    rcases hr with rfl | rfl <;> rfl
+  · intro a ha b hb hab
+    obtain ⟨p, hpm, rfl⟩ := List.mem_map.mp ha
+    obtain ⟨q, hqm, rfl⟩ := List.mem_map.mp hb
+    rw [ht p hpm q hqm hab]
+
+theorem svFrame_perm {bpms bpms' : List Tp} {svs svs' : List Sv} (omin omax : Rat)
+    (hs : TiesEqual (fun s : Sv => s.time) svs) (hp : bpms.Perm bpms') (hq : svs.Perm svs') :
+    svFrame bpms svs omin omax = svFrame bpms' svs' omin omax := by
+  unfold svFrame svRows
+  congr 1
+  apply groupLast_congr _ _ _ _ _ (hp.map _) (hq.map _)
+  · intro a ha b hb _
+    obtain ⟨p, _, rfl⟩ := List.mem_map.mp ha
+    obtain ⟨q, _, rfl⟩ := List.mem_map.mp hb
+    rfl
+  · intro a ha b hb hab
+    obtain ⟨p, hpm, rfl⟩ := List.mem_map.mp ha
+    obtain ⟨q, hqm, rfl⟩ := List.mem_map.mp hb
+    rw [hs p hpm q hqm hab]
+
+/-- **scroll_speed**: the whole result (offsets and speeds, row by row) is the same for every order of the tempo
+rows and of the SV rows.  `omin`/`omax` are the minimum / maximum stacked offset (independent of row order). -/
+theorem scroll_speed_perm (hasSv : Bool) {bpms bpms' : List Tp} {svs svs' : List Sv} (omin omax : Rat) (ov : Option Rat)
+    (ht : TiesEqual (fun p : Tp => p.time) bpms) (hs : TiesEqual (fun s : Sv => s.time) svs)
+    (hp : bpms.Perm bpms') (hq : svs.Perm svs') :
+    scrollSpeed hasSv bpms svs omin omax ov = scrollSpeed hasSv bpms' svs' omin omax ov := by
+  simp only [scrollSpeed, speedFrame, refBpm_perm omax ov ht hp, bpmFrame_perm omin omax ht hp,
+    svFrame_perm omin omax hs hp hq]
+
+example : TiesEqual (fun s : Sv => s.time) [⟨1500, 2⟩, ⟨1000, 1/2⟩, ⟨1500, 2⟩] := by
+  rw [← tiesEqualB_iff]; decide +kernel
+
+/-- the SV hypothesis is necessary: two SVs with different multipliers at one time (`groupby.last` keeps the one
+that comes last in row order) -/
+theorem scroll_speed_sv_tie_counterexample :
+    ([⟨500, 2⟩, ⟨500, 3⟩] : List Sv).Perm [⟨500, 3⟩, ⟨500, 2⟩] ∧
+    scrollSpeed true [⟨0, 100⟩] [⟨500, 2⟩, ⟨500, 3⟩] 0 1000 none ≠
+      scrollSpeed true [⟨0, 100⟩] [⟨500, 3⟩, ⟨500, 2⟩] 0 1000 none := by
+  refine ⟨List.Perm.swap _ _ _, ?_⟩
+  decide +kernel
+
+/-! ## full_ln -/
+
+section FullLN
+open Reamber.FullLN
+
+theorem stacked_perm {α} {m m' : MapM α} (hh : m.hits.Perm m'.hits) (hl : m.holds.Perm m'.holds) :
+    (stacked m).Perm (stacked m') := by
+  unfold stacked
+  exact (hh.map _).append hl
+
+/-- a column of a sorted arrangement is determined by the multiset of rows when tied notes are equal -/
+theorem inColumn_sorted_eq (c : Int) {arr₁ arr₂ : List FullLN.Row} (hp : arr₁.Perm arr₂) (s₁ : SortedByOffset arr₁)
+    (s₂ : SortedByOffset arr₂) (ht : TiesEqual key arr₁) : inColumn c arr₁ = inColumn c arr₂ := by
+  apply sorted_perm_eq_on (le := fun a b : FullLN.Row => decide (a.offset ≤ b.offset))
+  · intro a ha b hb h1 h2
+    simp only [decide_eq_true_eq] at h1 h2
+    have ha' := List.mem_filter.mp ha
+    have hb' := List.mem_filter.mp hb
+    have hca : a.column = c := by simpa using ha'.2
+    have hcb : b.column = c := by simpa using hb'.2
+    apply ht a ha'.1 b hb'.1
+    simp [key, le_antisymm h1 h2, hca, hcb]
+  · exact hp.filter _
+  · exact List.Pairwise.imp (fun h => by simpa using h) (List.Pairwise.filter _ s₁)
+  · exact List.Pairwise.imp (fun h => by simpa using h) (List.Pairwise.filter _ s₂)
+
+/-- **full_ln**: for ANY two functions `sort_values` may be (numpy's sort is not stable) and any two row orders
+of the hit and hold lists, the result has literally the same hit list and the same hold list; the further note
+lists and every other part are the inputs' own. -/
+theorem full_ln_perm {α} (sortF sortF' : List FullLN.Row → List FullLN.Row) (hs : SortsByOffset sortF) (hs' : SortsByOffset sortF')
+    (gap thr : Rat) (m m' : MapM α) (hh : m.hits.Perm m'.hits) (hl : m.holds.Perm m'.holds)
+    (ht : TiesEqual key (stacked m)) :
+    (fullLnWith sortF gap thr m).hits = (fullLnWith sortF' gap thr m').hits ∧
+    (fullLnWith sortF gap thr m).holds = (fullLnWith sortF' gap thr m').holds ∧
+    (fullLnWith sortF gap thr m).extras = m.extras ∧ (fullLnWith sortF' gap thr m').extras = m'.extras ∧
+    (fullLnWith sortF gap thr m).others = m.others ∧ (fullLnWith sortF' gap thr m').others = m'.others := by
+  have hp : (sortF (stacked m)).Perm (sortF' (stacked m')) :=
+    ((hs.perm _).trans (stacked_perm hh hl)).trans (hs'.perm _).symm
+  have ht' : TiesEqual key (sortF (stacked m)) := ht.perm (hs.perm _).symm
+  have hrows : fullLnRows gap thr (sortF (stacked m)) = fullLnRows gap thr (sortF' (stacked m')) := by
+    apply fullLnRows_eq_of_same_last gap thr _ _ hp (hs.sorted _) (hs'.sorted _)
+    intro c
+    rw [inColumn_sorted_eq c hp (hs.sorted _) (hs'.sorted _) ht']
+  refine ⟨?_, ?_, rfl, rfl, rfl, rfl⟩
+  · simp only [fullLnWith, hrows]
+  · simp only [fullLnWith, hrows]
+
+example : TiesEqual key ([⟨0, 0, none⟩, ⟨0, 1, none⟩, ⟨500, 0, some 100⟩, ⟨0, 0, none⟩] : List FullLN.Row) := by
+  rw [← tiesEqualB_iff]; decide +kernel
+
+/-- the tie hypothesis is necessary: a hit and a hold on one (time, column), last in their column — the model's
+own stable sort keeps whichever comes last in row order -/
+theorem full_ln_tie_counterexample :
+    (fullLn 150 100 (⟨[], [⟨0, 0, none⟩], [⟨0, 0, some 500⟩], ()⟩ : MapM Unit)).holds = [⟨0, 0, some 500⟩] ∧
+    (fullLn 150 100 (⟨[], [⟨0, 0, none⟩, ⟨1000, 0, none⟩], [⟨1000, 0, some 500⟩], ()⟩ : MapM Unit)).holds
+      = [⟨0, 0, some 850⟩, ⟨1000, 0, some 500⟩] ∧
+    fullLnRows 150 100 [⟨0, 0, none⟩, ⟨1000, 0, some 500⟩, ⟨1000, 0, none⟩] ≠
+      fullLnRows 150 100 [⟨0, 0, none⟩, ⟨1000, 0, none⟩, ⟨1000, 0, some 500⟩] := by
+  decide +kernel
+
+end FullLN
+
+/-! ## rate -/
+
+section Rate
+open Reamber.Rate
+
+/-- the same list up to row order: same columns, same multiset of rows -/
+def FramePerm (f f' : Frame) : Prop := f.cols = f'.cols ∧ f.rows.Perm f'.rows
+
+def ListsPerm (ls ls' : List (String × Frame)) : Prop := List.Forall₂ (fun p q => p.1 = q.1 ∧ FramePerm p.2 q.2) ls ls'
+
+def OptFramePerm : Option Frame → Option Frame → Prop
+  | none, none => True
+  | some f, some f' => FramePerm f f'
+  | _, _ => False
+
+/-- the same chart up to the row order of every list (osu: of the sample events too) -/
+def ChartPerm (c c' : Chart) : Prop :=
+  ListsPerm c.lists c'.lists ∧ OptFramePerm c.samples c'.samples ∧ c.preview = c'.preview ∧ c.extra = c'.extra
+
+theorem scaleFrame_perm (r : Rat) {f f' : Frame} (h : FramePerm f f') : FramePerm (scaleFrame r f) (scaleFrame r f') := by
+  obtain ⟨hc, hr⟩ := h
+  refine ⟨hc, ?_⟩
+  simp only [scaleFrame, hc]
+  exact hr.map _
+
+theorem scaleLists_perm (r : Rat) {ls ls' : List (String × Frame)} (h : ListsPerm ls ls') :
+    ListsPerm (ls.map (fun p => (p.1, scaleFrame r p.2))) (ls'.map (fun p => (p.1, scaleFrame r p.2))) := by
+  unfold ListsPerm at *
+  induction h with
+  | nil => exact List.Forall₂.nil
+  | cons hab _ ih => exact List.Forall₂.cons ⟨hab.1, scaleFrame_perm r hab.2⟩ ih
+
+theorem scaleChart_perm (g : Game) (r : Rat) {c c' : Chart} (h : ChartPerm c c') :
+    ChartPerm (scaleChart g r c) (scaleChart g r c') := by
+  obtain ⟨hl, hs, hp, he⟩ := h
+  refine ⟨?_, ?_, ?_, he⟩
+  · simp only [scaleChart]
+    exact scaleLists_perm r hl
+  · simp only [scaleChart]
+    split
+    · cases hcs : c.samples <;> cases hcs' : c'.samples <;> simp_all [OptFramePerm]
+      exact scaleFrame_perm r hs
+    · exact hs
+  · simp only [scaleChart, hp]
+
+/-- **rate**: `m.rate(r)` of the same chart in two row orders gives the same chart up to row order: every list
+holds the same multiset of rows (all columns), the scalars are equal.  `chartOk` is the well-formedness domain of
+C13's `rateChart_scales` (frames with distinct column names and full rows, the three stacked columns numeric). -/
+theorem rate_perm (g : Game) (r : Rat) (c c' : Chart) (hok : chartOk g c = true) (hok' : chartOk g c' = true) (hr : r ≠ 0)
+    (h : ChartPerm c c') :
+    ∃ o o', rateChart g r c = .ok o ∧ rateChart g r c' = .ok o' ∧ ChartPerm o o' :=
+  ⟨_, _, rateChart_scales g r c hok hr, rateChart_scales g r c' hok' hr, scaleChart_perm g r h⟩
+
+end Rate
+
+/-! ## hitsound_copy (partial) -/
+
+section Hitsound
+open Reamber.Hitsound
+
+/-- the same osu chart up to the row order of its hit and hold lists -/
+def HsChartPerm (c c' : Chart) : Prop := c.hits.Perm c'.hits ∧ c.holds.Perm c'.holds
+
+theorem noteKeys_perm {c c' : Chart} (h : HsChartPerm c c') : (noteKeys c).Perm (noteKeys c') := by
+  unfold noteKeys
+  exact (h.1.map _).append (h.2.map _)
+
+theorem notesOf_perm {c c' : Chart} (h : HsChartPerm c c') : (notesOf c).Perm (notesOf c') := by
+  unfold notesOf
+  exact h.1.append h.2
+
+theorem fileCntNotes_perm {c c' : Chart} (h : HsChartPerm c c') (t : Rat) (f : File) :
+    fileCntNotes c t f = fileCntNotes c' t f := by
+  unfold fileCntNotes
+  exact (notesOf_perm h).countP_eq _
+
+theorem cnt_perm {c c' : Chart} (h : HsChartPerm c c') (p : Note → Bool) (t : Rat) : cnt p t c = cnt p t c' := by
+  unfold cnt
+  exact (notesOf_perm h).countP_eq _
+
+theorem holdsHaveLength_perm {c c' : Chart} (h : HsChartPerm c c') (hl : holdsHaveLength c = true) :
+    holdsHaveLength c' = true := by
+  simp only [holdsHaveLength, List.all_eq_true] at *
+  exact fun n hn => hl n (h.2.mem_iff.mpr hn)
+
+theorem noSep_perm {c c' : Chart} (h : HsChartPerm c c') (hl : noSep c = true) : noSep c' = true := by
+  simp only [noSep, List.all_eq_true] at *
+  exact fun n hn => hl n ((notesOf_perm h).mem_iff.mpr hn)
+
+/-- **hitsound_copy, the part that is proved.**  Source and target in two row orders, ANY sorting permutations on
+both sides (`sort_values` is not stable):
+* the results have the same notes (time, column, length, kind) as multisets;
+* for every time `t` and sample name `f`, the number of result notes at `t` carrying `f` plus the number of event
+  samples (t, f) is the same on both sides (which of several named samples overflows to the event list may differ);
+* on both sides the claps / finishes / whistles at each time are bounded by the same source counts.
+
+FULL STATEMENT (not proved): the multisets of (time, clap|finish|whistle|name, volume) over notes and event samples
+together are equal.  Missing: that the number of default sounds placed per (time, volume group) is a function of
+the group's counts only — it needs an exact characterisation of `defaultsLoop` / `queue` beyond C18's bounds. -/
+theorem hitsound_copy_perm_partial (σs σt σs' σt' : List Nat) (src tgt src' tgt' : Chart)
+    (h : PermsOk σs σt src tgt) (h' : PermsOk σs' σt' src' tgt')
+    (hsrc : HsChartPerm src src') (htgt : HsChartPerm tgt tgt')
+    (hl : holdsHaveLength tgt = true) (hsep : noSep src = true) :
+    (noteKeys (copyWith σs σt src tgt)).Perm (noteKeys (copyWith σs' σt' src' tgt')) ∧
+    (∀ (t : Rat) (f : File), f ≠ [] →
+      fileCntNotes (copyWith σs σt src tgt) t f + fileCntEvs (copyWith σs σt src tgt) t f
+        = fileCntNotes (copyWith σs' σt' src' tgt') t f + fileCntEvs (copyWith σs' σt' src' tgt') t f) ∧
+    (∀ t : Rat, countsLeAt src (copyWith σs σt src tgt) t = true ∧ countsLeAt src (copyWith σs' σt' src' tgt') t = true) := by
+  refine ⟨?_, ?_, ?_⟩
+  · exact ((notes_preserved σs σt src tgt h hl).trans (noteKeys_perm htgt)).trans
+      (notes_preserved σs' σt' src' tgt' h' (holdsHaveLength_perm htgt hl)).symm
+  · intro t f hf
+    rw [← file_balance σs σt src tgt h hsep t f hf,
+        ← file_balance σs' σt' src' tgt' h' (noSep_perm hsrc hsep) t f hf]
+    exact fileCntNotes_perm hsrc t f
+  · intro t
+    refine ⟨counts_le σs σt src tgt h t, ?_⟩
+    have := counts_le σs' σt' src' tgt' h' t
+    simpa only [countsLeAt, cnt_perm hsrc] using this
+
+/-- N15a (open finding), the mechanism: on an object-dtype column pandas evaluates `hitsound_set & HS_CLAP` as a
+logical and of truth values, and `True == 2` / `False == 2` are both false — no bit is ever found -/
+def hasBitObject (hs m : Nat) : Bool := (if (hs ≠ 0 ∧ m ≠ 0) then 1 else 0) == m
+
+theorem n15a_object_dtype_counterexample :
+    (∀ hs : Nat, hasBitObject hs hsClap = false ∧ hasBitObject hs hsFinish = false ∧ hasBitObject hs hsWhistle = false) ∧
+    hasBit 3 hsClap = true := by
+  refine ⟨fun hs => ?_, by decide⟩
+  unfold hasBitObject hsClap hsFinish hsWhistle
+  by_cases h : hs = 0 <;> simp [h]
+
+end Hitsound
+
+/-! ## converters -/
+
+section Converters
+open Reamber.Convert
+
+/-- **converters (one pass of the body), all 17 shipped entry points**: two source maps that hold the same hits, holds
+and tempo points up to row order (any row labels) are converted to charts that hold the same hits, holds and tempo
+points up to row order — over the columns the converters carry (time, column, length, bpm; column shifted alike). -/
+theorem convert_one_perm : ∀ c ∈ Generated.converters, ∀ (src src' : Src) (cur cur' : SrcMap) (k : Int) (t t' : TChart),
+    srcMapOk cur = true → srcMapOk cur' = true →
+    convOne tables c src cur k = .ok t → convOne tables c src' cur' k = .ok t' → SrcKeyPerm cur cur' →
+    (∀ rt rt', projRows t.hits keysHits = some rt → projRows t'.hits keysHits = some rt' → rt.Perm rt') ∧
+    (∀ rt rt', projRows t.holds keysHolds = some rt → projRows t'.holds keysHolds = some rt' → rt.Perm rt') ∧
+    (∀ rt rt', projRows t.bpms keysBpms = some rt → projRows t'.bpms keysBpms = some rt' → rt.Perm rt') := by
+  intro c hc src src' cur cur' k t t' hok hok' h h' hrel
+  exact contentOk_perm (convOne_content tables c src cur k t (table_static_ok c hc) hok h)
+    (convOne_content tables c src' cur' k t' (table_static_ok c hc) hok' h') hrel
+
+end Converters
+
+/-! ## the Quaver writer -/
+
+section QuaWriter
+open Reamber.Qua
+
+/-- the same Quaver chart up to the row order of its four lists -/
+def QuaChartPerm (c c' : Qua.Chart) : Prop :=
+  c.info = c'.info ∧ c.hits.Perm c'.hits ∧ c.holds.Perm c'.holds ∧ c.bpms.Perm c'.bpms ∧ c.svs.Perm c'.svs
+
+theorem ksLists_perm {c c' : Qua.Chart} (h : QuaChartPerm c c') (hk : Qua.Spec.ksLists c = true) :
+    Qua.Spec.ksLists c' = true := by
+  simp only [Qua.Spec.ksLists, Bool.and_eq_true, List.all_eq_true] at *
+  exact ⟨fun x hx => hk.1 x (h.2.1.mem_iff.mpr hx), fun x hx => hk.2 x (h.2.2.1.mem_iff.mpr hx)⟩
+
+/-- **QuaMap.write**: the documents written for two row orders of one chart both have a by-the-book denotation,
+and the two denotations are the same chart up to row order (same metadata, same multisets of hits, holds, tempo
+points and SVs — each quantised to whole milliseconds by the format).  Hypotheses as in C06's `qua_write_denotes`:
+writable metadata, key-sound cells that are lists (D08 is the failure of the latter). -/
+theorem write_qua_perm (c c' : Qua.Chart) (h : QuaChartPerm c c') (hm : Qua.MetaOk c.info)
+    (hk : Qua.Spec.ksLists c = true) :
+    ∃ d d' q q', Qua.write c = .ok d ∧ Qua.write c' = .ok d' ∧
+      Qua.Spec.denote d = .ok q ∧ Qua.Spec.denote d' = .ok q' ∧ QuaChartPerm q q' := by
+  have hm' : Qua.MetaOk c'.info := h.1 ▸ hm
+  have hk' := ksLists_perm h hk
+  have hw : ∃ d, Qua.write c = .ok d := by
+    unfold Qua.write; rw [Qua.writeMeta_ok _ hm]; exact ⟨_, rfl⟩
+  have hw' : ∃ d, Qua.write c' = .ok d := by
+    unfold Qua.write; rw [Qua.writeMeta_ok _ hm']; exact ⟨_, rfl⟩
+  obtain ⟨d, hd⟩ := hw
+  obtain ⟨d', hd'⟩ := hw'
+  refine ⟨d, d', _, _, hd, hd', (Qua.qua_write_denotes c d hm hk hd).1, (Qua.qua_write_denotes c' d' hm' hk' hd').1, ?_⟩
+  obtain ⟨hi, hh, hl, hb, hs⟩ := h
+  exact ⟨hi, hh.map _, hl.map _, hb.map _, hs.map _⟩
+
+end QuaWriter
+
+end Reamber.PermInv
